@@ -264,6 +264,7 @@ struct Run {
 
 	void run() {
 		ledger().reset();
+		trackObjectsForRaces();
 		idsOfThread.assign(cfg.threads.size() + 1, std::vector<int>());
 		int id = 0;
 		for(size_t t = 0; t < cfg.threads.size(); ++t) for(int k : cfg.threads[t]) for(int i = 0; i < enqueuesOf(k); ++i) { ++id; idsOfThread[t + 1].push_back(id); evs.push_back(Ev{id, E_NONE, false, (int)t + 1, 0}); }
@@ -362,6 +363,7 @@ static std::vector<Config> configs(const std::string & fam, int tier) {
 		v.push_back(mk({{O_EMPTY}, {O_ENQ}, {O_PROCESS}}));
 		v.push_back(mk({{O_EMPTY}, {O_ENQ}, {O_PROCESS_ONE}}));
 		if(tier >= 1) {
+			v.push_back(mk({{O_ENQ, O_ENQ}, {O_PROCESS_ONE}, {O_PROCESS_ONE}}));
 			v.push_back(mk({{O_EMPTY}, {O_ENQ, O_ENQ}, {O_PROCESS}}));
 			v.push_back(mk({{O_EMPTY, O_EMPTY}, {O_ENQ}, {O_CLEAR}}));
 			v.push_back(mk({{O_EMPTY}, {O_ENQ, O_ENQ}, {O_PROCESS_IF_ODD}}));
@@ -413,7 +415,9 @@ static std::vector<Config> configs(const std::string & fam, int tier) {
 		v.push_back(mk({{O_EMPTY}, {O_ENQ}, {O_PROCESS}}));
 		v.push_back(mk({{O_EMPTY}, {O_ENQ}, {O_PROCESS_ONE}}));
 		v.push_back(mk({{O_ENQ, O_EMPTY}, {O_PROCESS_ONE}}));
+		v.push_back(mk({{O_ENQ, O_ENQ}, {O_PROCESS_ONE}, {O_PROCESS_ONE}}));     // two consumers: the listeners ask emptyQueue()
 		if(tier >= 1) {
+			v.push_back(mk({{O_ENQ, O_ENQ}, {O_PROCESS_ONE}, {O_PROCESS}}));
 			v.push_back(mk({{O_EMPTY}, {O_ENQ, O_ENQ}, {O_PROCESS}}));
 			v.push_back(mk({{O_EMPTY}, {O_ENQ, O_ENQ}, {O_PROCESS_ONE, O_PROCESS_ONE}}));
 			v.push_back(mk({{O_EMPTY}, {O_ENQ}, {O_TAKE}}));
